@@ -34,6 +34,14 @@ def run(ctx):
                         "both alternatives of its where mask")
     cg.rule_update(ctx, "SIBLING", fu, parallel=True)
 
+    ctx.rule("OPTIONS", "N-1 cases run with pf_options_nminus1 (sequential fallback, worker and its partial binding), the base case with "
+                        "pf_options; every case list skips elements that are out of service; the pool size is n_procs")
+    cg.rule_options(ctx, "OPTIONS", fi, worker=fw)
+    pools = [c for c in calls_in(fi.node) if (call_name(c) or "").endswith("Pool")]
+    for c in pools:
+        kw = {k.arg: ast.unparse(k.value) for k in c.keywords if k.arg}
+        ctx.ob("OPTIONS", f"{M}::run_contingency_parallel::pool-size", kw.get("processes") == "n_procs" or (c.args and ast.unparse(c.args[0]) == "n_procs"),
+               f"Pool({kw}): a size derived from the number of cases is zero (ValueError) when no case remains", fi.loc(c))
     R = "ORDERED"
     ctx.rule(R, "results of the worker pool are produced by an order-preserving map and consumed by iterating the returned list")
     prod = [c for c in calls_in(fi.node) if isinstance(c.func, ast.Attribute) and c.func.attr in
@@ -72,6 +80,9 @@ def variants(repo):
     p = "pandapower/contingency/contingency_parallel.py"
     V = Variant
     return [
+        V("parallel task list without in-service filter", p, lambda s: s.replace('        tasks = []\n        for element, val in nminus1_cases.items():\n            for i in val["index"]:\n                if net[element].at[i, "in_service"]:\n                    tasks.append((element, i))\n', '        tasks = [(element, i) for element, val in nminus1_cases.items() for i in val["index"]]\n', 1), "case-filter"),
+        V("worker bound to the base-case options", p, lambda s: s.replace("def _run_single_contingency(contingency_case, net, pf_options_nminus1,", "def _run_single_contingency(contingency_case, net, pf_options,", 1).replace("contingency_evaluation_function(net_copy, **pf_options_nminus1, **kwargs)", "contingency_evaluation_function(net_copy, **pf_options, **kwargs)", 1).replace("net=net, pf_options_nminus1=pf_options_nminus1,", "net=net, pf_options=pf_options,", 1), "worker"),
+        V("pool size capped by the number of cases", p, replace_once("mp.Pool(processes=n_procs)", "mp.Pool(processes=min(n_procs, len(tasks)))"), "pool-size"),
         Variant("parallel mask starts from all true", "pandapower/contingency/contingency_parallel.py", in_function("_update_contingency_results_parallel", lambda s: s.replace('                    where_mask = net[element]["in_service"].values\n                    if parallel_results and element == cause_element:', '                    where_mask = np.ones(len(val), dtype=bool) if parallel_results else net[element]["in_service"].values\n                    if parallel_results and element == cause_element:', 1)), "where-in-service:parallel"),
         V("parallel branch keeps own outage", p, in_function("_update_contingency_results_parallel", lambda s: s.replace('                        where_mask = where_mask & (contingency_results[element]["index"] != cause_index)\n', '                        pass\n', 1)), "where-own-outage"),
         V("cause compares with nan", p, in_function("_update_contingency_results_parallel", replace_once("max_mask = valid & (val > np.nan_to_num(current_max, nan=-np.inf))", "max_mask = valid & (val > current_max)")), "cause-nan-safe"),
